@@ -225,12 +225,6 @@ theorem tree_sound {net : Net} (hwf : WF net) {v : STensor} (hv : dget net.tenso
   refine (prodL_perm ((isort_perm _).map _).symm).trans ?_
   congr 1
 
-/-- the strengthened root certificate: `rootOK` and, in addition, distinct legs of the root carry distinct bonds
-(decidable, Mathlib-free; `rootOK` alone is unsound for a single-leaf tree whose tensor repeats a bond) -/
-def rootOKStrong (net : Net) (tree : Tree) (axesMap : List Nat) : Bool :=
-  rootOK net tree axesMap &&
-    nodupB ((List.range tree.info.idxout.length).map (nodeLegBond net tree.info))
-
 theorem rootInj_of_nodupB {net : Net} {c : NodeInfo} (hi : InfoCert net c)
     (h : nodupB ((List.range c.idxout.length).map (nodeLegBond net c)) = true) : RootInj net c := by
   rw [nodupB_iff] at h
